@@ -284,12 +284,26 @@ impl<AnyLoader: Loader> Context<AnyLoader> {
         let name = file.source().name();
         let pos = &file.source().imported;
         if let Some(old) = self.loading.insert(name.into(), pos.clone()) {
+            #[cfg(kaj_rsass_verif)]
+            crate::verif::emit(|| {
+                format!(
+                    "{{\"ev\":\"LockLoop\",\"name\":{name:?},\"module\":{as_module},\"n\":{}}}",
+                    self.loading.len()
+                )
+            });
             Err(Error::ImportLoop(
                 as_module,
                 pos.next().unwrap().clone(),
                 old.next().cloned(),
             ))
         } else {
+            #[cfg(kaj_rsass_verif)]
+            crate::verif::emit(|| {
+                format!(
+                    "{{\"ev\":\"Lock\",\"name\":{name:?},\"module\":{as_module},\"n\":{}}}",
+                    self.loading.len()
+                )
+            });
             Ok(())
         }
     }
@@ -301,6 +315,14 @@ impl<AnyLoader: Loader> Context<AnyLoader> {
     /// when processing of it is done.
     pub fn unlock_loading(&mut self, file: &SourceFile) {
         self.loading.remove(file.path());
+        #[cfg(kaj_rsass_verif)]
+        crate::verif::emit(|| {
+            format!(
+                "{{\"ev\":\"Unlock\",\"name\":{:?},\"n\":{}}}",
+                file.path(),
+                self.loading.len()
+            )
+        });
     }
 }
 
